@@ -2334,6 +2334,13 @@ def c03_thread(ctx):
     return out
 
 
+def local_type_param_of(b, pterm):
+    for l in b.arg_locals():
+        if (b.local_name(l) or '_%d' % l) == pterm[1]:
+            return local_type_param(b, l)
+    return None
+
+
 def some_only_if_accepted(ctx, name, depth=0):
     """does the Option-valued body `name` (a closure or helper) return Some only on paths on which a user filter (a
     bool-valued user closure) accepted - directly, or by returning the value of a helper with that property"""
@@ -2469,6 +2476,17 @@ def check_count_body(ctx, out, tb, depth=0):
             f = d[1][2][1]
             if f[0] == 'closure' and some_only_if_accepted(ctx, f[1]):
                 accept_edges.append((sbb, r.switch_target(sbb, 1)))
+    # `for x in stream.filter(f)` / `.filter_map(accept)`: the Some edge of the loop's next() is a survivor edge
+    for sbb, (d, tg) in r.switches.items():
+        if d[0] == 'discr' and d[1][0] == 'call' and is_next_call(d[1]) and d[1][2]:
+            ch = I.normalize(d[1][2][0])
+            while ch[0] == 'call' and term_method(ch) in ('into_iter', 'by_ref') and ch[2]:
+                ch = ch[2][0]
+            if ch[0] == 'call' and is_iter_method(ch, ('filter_map',)) and len(ch[2]) == 2 and ch[2][1][0] == 'closure' and some_only_if_accepted(ctx, ch[2][1][1]):
+                accept_edges.append((sbb, r.switch_target(sbb, 1)))
+            elif ch[0] == 'call' and is_iter_method(ch, ('filter',)) and len(ch[2]) == 2 and ch[2][1][0] == 'param' and \
+                    fbs.get(local_type_param_of(tb, ch[2][1]), {}).get('output') == 'bool':
+                accept_edges.append((sbb, r.switch_target(sbb, 1)))
     steps = {x for x, t in tb.calls() if is_step_call(t) or (t.get('local') and helper_pull_summary(ctx, callee_of(t)))}
     for bb, blk in tb.blocks.items():
         for st in blk['stmts']:
@@ -2526,6 +2544,14 @@ def c04_chain(ctx):
                 e = I.elem(I.normalize(c['args'][0]))
                 if all(a[0] == 'call' and is_iter_method(a, ('count',)) for a in alternatives(e)):
                     continue      # a sum of per-pull counts
+            if m == 'fold' and len(c['args']) == 3:
+                # fold(0, |acc, chunk_count| acc + chunk_count) over per-pull counts is a sum
+                e = I.elem(I.normalize(c['args'][0]))
+                ACC = P('$acc')
+                got = items0(ctx).apply(c['args'][2], [ACC, P('$x')])
+                if I.normalize(c['args'][1]) == ('const', 0) and got in (('bin', 'Add', ACC, P('$x')), ('bin', 'Add', P('$x'), ACC)) and \
+                        all(a[0] == 'call' and is_iter_method(a, ('count',)) for a in alternatives(e)):
+                    continue
             if m in ITER_SKIPPING or (m in ITER_EXHAUSTIVE and m != 'count') or m in ITER_CARD_CHANGING:
                 n += 1
                 out.inst('C04-CHAIN/%s/%s' % (key_of(b), m), False, m)
@@ -2537,6 +2563,9 @@ def c04_chain(ctx):
                 # the user filter is the adaptor applied last (closest to count)
                 ch = I.normalize(c['args'][0])
                 okf = ch[0] == 'call' and is_iter_method(ch, ('filter',)) and (ch[2][1] in filters)
+                if not okf and ch[0] == 'call' and is_iter_method(ch, ('filter_map',)) and ch[2][1][0] == 'closure':
+                    # filter_map(f) where f yields Some only for elements the user filter accepted
+                    okf = some_only_if_accepted(ctx, ch[2][1][1])
                 out.inst(key, okf, 'count over %s' % names, sample={'kernel': key_of(b), 'chain': names})
                 if not okf:
                     out.fail(key, '%s counts a chain whose last adaptor is not `filter(<user filter>)`: %s' % (key_of(b), names[:3]), b.where(c['line']))
